@@ -527,6 +527,60 @@ def provider_cases(quick):
     return cases
 
 
+def run_restart_case(case):
+    """Session 1: one operation against provider instance 1. The provider is replaced by a new instance at the same address
+    (it re-uses transaction id 1), the consumer calls restart() (its documented reaction), session 2: one operation whose
+    handler behaves differently. The second result handle must complete with the states of ITS transaction."""
+    first_mode, second_mode, delayed = case
+    w = world.World()
+    p1 = w.mk_provider()
+    c = w.mk_consumer(p1)
+    w.mk_consumer_mdib(c)
+    handle = OPS['SetString']
+    _install_handler(p1, handle, first_mode, delayed)
+    f1 = _send(c, p1, 'SetString', handle)
+    world.drain_operations(p1)
+    if not f1.done():
+        return ['first call did not complete']
+    p2 = w.mk_provider(epr=p1._epr)
+    _install_handler(p2, handle, second_mode, delayed)
+    try:
+        c.restart()
+    except Exception as ex:  # noqa: BLE001
+        return [f'consumer restart raised {ex!r}'[:200]]
+    f2 = _send(c, p2, 'SetString', handle)
+    world.drain_operations(p2)
+    if not f2.done():
+        return ['second call: result handle never completed']
+    r2 = f2.result(timeout=0)
+    want_final = {'ok': 'Fin', 'ok-mod': 'FinMod', 'fail': 'Fail', 'raise': 'Fail'}[second_mode]
+    want_parts = (['Wait', 'Start'] if delayed else []) + [want_final]
+    got_final = r2.InvocationInfo.InvocationState.value
+    got_parts = [pt.InvocationInfo.InvocationState.value for pt in r2.report_parts]
+    problems = []
+    if got_final != want_final:
+        problems.append(f'second call after restart completed with {got_final}, its transaction ended with {want_final} '
+                        f'(first session: handler {first_mode})')
+    elif got_parts != want_parts:
+        problems.append(f'second call after restart carries report parts {got_parts}, its transaction had {want_parts}')
+    w.close()
+    return problems
+
+
+def _restart_work(acc, case):
+    acc.trace()
+    acc.evals()
+    acc.transition(4)
+    acc.state(h64(('restart', case)))
+    problems = run_restart_case(case)
+    acc.outcome('restart-case:' + ('ok' if not problems else 'bad'))
+    if problems:
+        acc.violation(f'consumer/after-restart/{case[0]}>{case[1]}/{"queued" if case[2] else "direct"}', {'problems': problems},
+                      case={'kind': 'restart', 'case': list(case)})
+    else:
+        acc.nontrivial(h64(('restart', case)))
+
+
 def run(ctx):
     pc = provider_cases(ctx.quick)
     cc = consumer_cases(ctx.quick)
@@ -538,6 +592,9 @@ def run(ctx):
                 % (len(pc), len(cc)))
     ctx.pmap(_prov_work, ctx.rotate(pc), chunksize=2)
     ctx.pmap(_cons_work, ctx.rotate(cc), chunksize=8)
+    rc = [(a, b, d) for a in ('ok', 'raise') for b in ('ok', 'ok-mod', 'fail', 'raise') for d in (False, True)]
+    ctx.pmap(_restart_work, rc, chunksize=1)
+    ctx.note('restart_cases', len(rc))
     from mcx.checks import c09_sched
     c09_sched.run(ctx)      # (c) concurrent requests under the schedule explorer: transaction ids unique
     ctx.note('bounds', {'provider_cases': len(pc), 'consumer_cases': len(cc)})
@@ -553,7 +610,9 @@ def replay(ctx, case):
     if case['kind'] == 'sched':
         from mcx.checks import c09_sched
         return c09_sched.replay(ctx, case)
-    if case['kind'] == 'provider':
+    if case['kind'] == 'restart':
+        problems = run_restart_case(tuple(case['case']))
+    elif case['kind'] == 'provider':
         status, problems = run_provider_case([tuple(c) for c in case['case']])
     else:
         c = case['case']
